@@ -831,9 +831,12 @@ class TreeTensorNetwork(TreeStructure):
         if new_identifier is None:
             new_identifier = node_id
         children = node.children
+        current_id = node_id
         for child_id in copy(children):
-            self.contract_nodes(node_id, child_id,
+            self.contract_nodes(current_id, child_id,
                                 new_identifier=new_identifier)
+            # From now on the contracted node carries the new identifier
+            current_id = new_identifier
 
     def legs_before_combination(self, node1_id: str,
                                 node2_id: str) -> Tuple[LegSpecification, LegSpecification]:
